@@ -236,7 +236,8 @@ def gc_observe(ctx, cases, tag):
         nf = len(s["prog"])
         return {"id": s["id"], "prog": s["prog"],
                 "runs": [{"variant": "gc", "built": True, "out": out, "outcome": outcome, "val": 0, "chain": chain,
-                          "lines": [[0] * len(b) for b in s["prog"]], "paths": [""] * nf, "pkgs": [""] * nf, "after": 0, "ends": 0}]}
+                          "lines": [[0] * len(b) for b in s["prog"]], "paths": [""] * nf, "pkgs": [""] * nf, "after": 0, "ends": 0,
+                          "dclass": ""}]}
 
     with ThreadPoolExecutor(max_workers=rig.NCPU) as ex:
         return list(ex.map(run, srcs))
